@@ -3,6 +3,7 @@ package main
 import (
 	"fmt"
 	"go/ast"
+	"go/token"
 	"go/types"
 	"strings"
 )
@@ -640,9 +641,86 @@ func (e *Exec) effectsOf(fr *Frame, nodes ...ast.Node) *Effects {
 				continue
 			}
 		}
+		if blk, ok := n.(*ast.BlockStmt); ok {
+			e.exitOnly = map[*ast.BlockStmt]bool{}
+			markExitOnly(blk.List, false, e.exitOnly)
+		}
 		e.collectEffects(n, fr.info, fr.subst, ef, 0, map[string]bool{})
+		e.exitOnly = nil
 	}
 	return ef
+}
+
+// markExitOnly marks the blocks of a loop body that every path leaves the loop through (their statement list ends in a
+// `return` or in a `break` of this loop and contains no other branch statement): what such a block assigns never
+// reaches the loop head, so it is not part of what is arbitrary there (the exit states are computed by executing the
+// body, which includes these blocks).
+func markExitOnly(list []ast.Stmt, inInner bool, out map[*ast.BlockStmt]bool) {
+	for _, s := range list {
+		switch v := s.(type) {
+		case *ast.BlockStmt:
+			markBlock(v, inInner, out)
+		case *ast.IfStmt:
+			for cur := v; cur != nil; {
+				markBlock(cur.Body, inInner, out)
+				switch el := cur.Else.(type) {
+				case *ast.IfStmt:
+					cur = el
+				case *ast.BlockStmt:
+					markBlock(el, inInner, out)
+					cur = nil
+				default:
+					cur = nil
+				}
+			}
+		case *ast.ForStmt:
+			markExitOnly(v.Body.List, true, out)
+		case *ast.RangeStmt:
+			markExitOnly(v.Body.List, true, out)
+		case *ast.LabeledStmt:
+			markExitOnly([]ast.Stmt{v.Stmt}, true, out) // labels: stay conservative below this point
+		}
+	}
+}
+
+func markBlock(b *ast.BlockStmt, inInner bool, out map[*ast.BlockStmt]bool) {
+	if b == nil {
+		return
+	}
+	markExitOnly(b.List, inInner, out)
+	if len(b.List) == 0 {
+		return
+	}
+	last := b.List[len(b.List)-1]
+	exits := false
+	switch l := last.(type) {
+	case *ast.ReturnStmt:
+		exits = true
+	case *ast.BranchStmt:
+		exits = l.Tok == token.BREAK && l.Label == nil && !inInner
+	}
+	if !exits {
+		return
+	}
+	clean := true
+	for i, s := range b.List {
+		ast.Inspect(s, func(x ast.Node) bool {
+			switch br := x.(type) {
+			case *ast.FuncLit:
+				return false
+			case *ast.BranchStmt:
+				if !(i == len(b.List)-1 && ast.Node(br) == ast.Node(last)) {
+					clean = false
+				}
+			case *ast.LabeledStmt, *ast.DeferStmt, *ast.GoStmt:
+				clean = false
+			}
+			return clean
+		})
+	}
+	if clean {
+		out[b] = true
+	}
 }
 
 func (e *Exec) lhsEffect(x ast.Expr, info *types.Info, subst map[*types.TypeParam]types.Type, ef *Effects, local bool) {
@@ -728,6 +806,9 @@ func (e *Exec) lhsEffect(x ast.Expr, info *types.Info, subst map[*types.TypePara
 func (e *Exec) collectEffects(n ast.Node, info *types.Info, subst map[*types.TypeParam]types.Type, ef *Effects, depth int, seen map[string]bool) {
 	local := depth == 0
 	ast.Inspect(n, func(x ast.Node) bool {
+		if blk, ok := x.(*ast.BlockStmt); ok && local && e.exitOnly[blk] {
+			return false
+		}
 		switch v := x.(type) {
 		case *ast.AssignStmt:
 			for _, l := range v.Lhs {
